@@ -77,6 +77,8 @@ fn check_case(c: &SeqCase, obs: &mut Obs) -> Verdict {
     obs.class_if(n > 0 && m > 0 && os[n - 1] == ns[m - 1] && want > 0, "common suffix > 0");
     obs.class_if(c.or.0 > 0 || c.nr.0 > 0, "range start > 0");
     obs.class_if(n + m > 200, "N+M > 200");
+    obs.class_if(want >= 256, "D >= 256");
+    obs.metric("largest D", want as f64);
     Verdict::Pass
 }
 
@@ -86,6 +88,12 @@ fn strat(tier: Tier) -> BoxedStrategy<SeqCase> {
         3 => seq_case(tier.pick(40, 100), true, 3),
         1 => seq_case(tier.pick(100, 300), true, 3).prop_map(|mut c| {
             c.alg = 0;
+            c
+        }),
+        // Myers with a LARGE edit distance (deep searches: D in the hundreds)
+        1 => (2u32..8, proptest::collection::vec(0u32..64, 150..=tier.pick(400usize, 900)), proptest::collection::vec(0u32..64, 150..=tier.pick(400usize, 900)), 0u8..3).prop_map(|(k, a, b, mode)| {
+            let mut c = SeqCase::full(0, a.into_iter().map(|x| x % k).collect(), b.into_iter().map(|x| x % k).collect());
+            c.mode = mode;
             c
         }),
     ]
@@ -124,7 +132,7 @@ impl Prop for C03 {
                     gen: enum_small,
                 },
             },
-            Stage { name: "random", kind: StageKind::Random { strategy: strat, cases: tier.pick(200_000, 3_000_000) } },
+            Stage { name: "random", kind: StageKind::Random { strategy: strat, cases: tier.pick(200_000, 2_000_000) } },
         ]
     }
     fn check(case: &SeqCase, obs: &mut Obs) -> Verdict {
